@@ -71,7 +71,7 @@ package table
 //@   let lm   := c.Validation_level_m20.Level
 //@   let bad  := vpErr(B, ll, lm)
 //@   let key  := vpKey(B, ll, lm)
-//@   let ooo  := c.Validate_order && !(vpTs(B) > old(validate.m[fnv64a(key)]))
+//@   let ooo  := c.Validate_order && !(vpTs(B) > validate.m[fnv64a(key)])
 //@   let f0   := field(B, 0)
 //@   let bl   := exists j int :: 0 <= j && j < len(c.blacklist) && matchSpec(*c.blacklist[j], f0)
 //@   let n1   := rwStep(cref, len(c.rewriters), f0)
